@@ -79,7 +79,8 @@ def parse_mir(text):
                 M.allocs[m3.group(1)] = data; continue
             while not lines[i].startswith('}'):
                 parts = lines[i].split('│')
-                if len(parts) >= 2: data += parts[1].split()
+                if len(parts) >= 3: data += parts[1].split()
+                elif len(parts) == 2: data += parts[0].split()
                 i += 1
             M.allocs[m3.group(1)] = data
             if m3.group(2): M.statics[m3.group(2)] = data
